@@ -57,6 +57,9 @@ type hostile struct {
 	// (after midAt of them)
 	mid   *hostile
 	midAt int
+	// trail: frames for the same object written right behind, in the same burst
+	// (they wait in the object's mailbox behind the frame proper)
+	trail []hostile
 }
 
 // childPlaceholder stands for the identifier of the second object (known
@@ -112,6 +115,15 @@ func alphabet() []hostile {
 			mid: &hostile{typ: net.Reply, svc: 1, obj: 1, act: 100, pay: fx.Int32(1)}, midAt: 20},
 		{name: "terminate(second-object)x2", typ: net.Call, svc: 1, obj: childPlaceholder, act: 3, repeat: 1},
 		{name: "6-calls+terminate(second-object)x2", typ: net.Call, svc: 1, obj: childPlaceholder, act: 3, repeat: 1, prelude: 6},
+		{name: "4-calls+terminate(second-object)+requests-behind-it", typ: net.Call, svc: 1, obj: childPlaceholder, act: 3, prelude: 4, trail: []hostile{
+			{typ: net.Call, act: 6, pay: values(value.String("level"), value.Int(5))},
+			{typ: net.Call, act: 5, pay: values(value.String("level"))},
+			{typ: net.Call, act: 100, pay: fx.Int32(1)},
+			{typ: net.Call, act: 81, pay: []byte{1}},
+			{typ: net.Call, act: 82},
+			{typ: net.Post, act: 6, pay: values(value.String("level"), value.Int(6))},
+			{typ: net.Call, act: 2},
+		}},
 		{name: "half-frame-then-close", raw: []byte{0x42, 0xde, 0xad, 0x42, 1, 0, 0, 0, 40, 0, 0}, close: true},
 		{name: "close", close: true},
 	}
@@ -185,6 +197,15 @@ func body(n int, bounded bool, custom ...func() []hostile) func() {
 						h.Send(f.mid.typ, f.mid.svc, f.mid.obj, f.mid.act, h.NextID(), f.mid.pay)
 					}
 					if h.Send(f.typ, f.svc, obj, f.act, h.NextID(), pay) != nil {
+						break
+					}
+				}
+				for _, t := range f.trail {
+					tp := t.pay
+					if t.act == 2 {
+						tp = u32(obj)
+					}
+					if h.Send(t.typ, f.svc, obj, t.act, h.NextID(), tp) != nil {
 						break
 					}
 				}
@@ -413,6 +434,80 @@ func vanish(n int) func() {
 	}
 }
 
+// tracedVanish: tracing is on, one connection holds two subscriptions to the trace
+// signal (made while tracing was on: notifying them is itself traced), another
+// connection holds a subscription and is dropped abruptly while an established client's
+// call is being traced. Afterwards every client is still served (seed C12-20 sent the
+// events under the read lock of the subscriber list: the nested notification takes the
+// read lock again behind the writer the disconnection queued).
+func tracedVanish() {
+	w := fx.Start(bus.Yes{})
+	good := w.MustConnect()
+	pg := good.Probe(1)
+	if _, err := good.Client.Call(nil, w.ServiceID, 1, 85, []byte{1}); err != nil {
+		vrt.Failf("harness/enable-trace", "%v", err)
+		return
+	}
+	h := w.RawPeer()
+	h.StartDrain()
+	if !h.Authenticate("", "") {
+		vrt.Failf("harness/auth", "raw peer could not authenticate")
+		return
+	}
+	// the two subscriptions of one connection: to tick (every notification of a traced
+	// subscriber emits a trace event in turn) or to the trace signal itself
+	twice := []uint32{105, 0x56}[vrt.ChooseFree(2, "signal followed twice by one connection")]
+	h.Send(net.Call, 1, 1, 0, h.NextID(), regPayload(1, twice, 90))
+	h.Send(net.Call, 1, 1, 0, h.NextID(), regPayload(1, twice, 91))
+	v := w.RawPeer()
+	v.StartDrain()
+	if !v.Authenticate("", "") {
+		vrt.Failf("harness/auth", "raw peer could not authenticate")
+		return
+	}
+	which := []uint32{0x56, 105}[vrt.ChooseFree(2, "signal the vanishing client follows")]
+	v.Send(net.Call, 1, 1, 0, v.NextID(), regPayload(1, which, 92))
+	vrt.Quiesce()
+	vrt.Explore()
+	okCall := false
+	wc := vrt.GoWorker("caller", func() {
+		// the service emits tick (its traced subscribers are notified), then a call
+		// of an established client is traced
+		w.Root.Helper.SignalTick(7)
+		if r, err := pg.Echo(23); err == nil && r == probe.EchoResult(23) {
+			okCall = true
+		}
+	})
+	wv := vrt.GoWorker("vanisher", func() { v.Raw.Close() })
+	vrt.Quiesce()
+	fx.Settle(wv)
+	vrt.Freeze()
+	okRoot := false
+	pw := vrt.GoWorker("probe-client", func() {
+		c, err := w.Connect("", "")
+		if err != nil {
+			vrt.Failf("probe-connect-failed", "a fresh client cannot connect after a traced subscriber vanished: %v", err)
+			return
+		}
+		okRoot = fullService(c.Probe(1), 21)
+	})
+	vrt.Quiesce()
+	served := wc.Done() && pw.Done() && okCall && okRoot
+	switch lws := vrt.LockWaiters(); {
+	case len(lws) > 0 && !served:
+		vrt.Failf("=deadlock/traced-subscribers", "thread %s blocked on %s at quiescence: tracing on, two traced subscriptions of one connection to signal %d, a subscriber of signal %d vanished while tick was emitted and a call was traced; emitter and established caller returned: %v, fresh client served: %v", lws[0].Thread, lws[0].Label, twice, which, wc.Done(), pw.Done())
+	case !wc.Done():
+		vrt.Failf("=established-client-not-served/traced-subscribers", "the call of an established client does not return: blocked on %s", wc.BlockedOn())
+	case !pw.Done():
+		vrt.Failf("=fresh-client-not-served/traced-subscribers", "a fresh client is not served: blocked on %s", pw.BlockedOn())
+	case !okCall:
+		vrt.Failf("=established-client-refused/traced-subscribers", "the call of the established client failed")
+	case !okRoot:
+		vrt.Failf("=service-object-dead/traced-subscribers", "the service object does not serve a fresh client")
+	}
+	vrt.Observe("traced-vanish signal=%d call=%v root=%v", which, okCall, okRoot)
+}
+
 // truncations: every well-formed request of a base list with its payload cut
 // at every length (the frame itself is complete: header size = bytes sent).
 func truncations() []hostile {
@@ -547,6 +642,8 @@ func cuts() {
 func init() {
 	reg.Register(&reg.Scenario{Property: "C12", Name: "backlog-behind-busy-object", Body: fx.Backlog(12), Quick: 1, Thorough: 2,
 		Doc: "an object busy in a gated call; one connection pipelines terminate() + 12 calls (more than its mailbox holds), a second connection one more; then the gate opens"})
+	reg.Register(&reg.Scenario{Property: "C12", Name: "traced-subscribers-one-vanishes", Body: tracedVanish, Quick: 2, Thorough: 3, MaxSteps: 60000, StepLimitFails: true,
+		Doc: "tracing on, one connection holds two subscriptions to the trace signal, another connection holding a subscription (trace signal or tick) is dropped while an established client's call is traced: the caller, and then a fresh client, are served"})
 	reg.Register(&reg.Scenario{Property: "C12", Name: "vanishing-client-1", Body: vanish(1), Quick: 2, Thorough: 3, MaxSteps: 60000, StepLimitFails: true,
 		Doc: "a hostile client with two live subscriptions sends one request of a menu of 8 (unregister, register, terminate of an object it follows, statistics, calls, a property write) and drops the connection at once: the teardown of the connection races the request; afterwards a fresh and an established client are served by every object"})
 	reg.Register(&reg.Scenario{Property: "C12", Name: "vanishing-client-2", Body: vanish(2), Quick: 1, Thorough: 2, MaxSteps: 60000, StepLimitFails: true,
